@@ -168,6 +168,10 @@ def mon_C03(st):
                 if sp["ccb"] != "n" and t.X is not None and t.R is None and t.E is None and len(t.cc) != 1:
                     out.append(("cancel-callback-count", qj,
                                 f"pool {pi} task {t.tid}: coroutine ended by cancellation, {len(t.cc)} cancel callbacks"))
+                if sp["ccb"] != "n" and t.S is None and t.first_seen < qj and len(t.cc) != 1:
+                    # the loop is idle and the worker never began: the task was cancelled before its first step
+                    out.append(("cancel-callback-count", qj,
+                                f"pool {pi} task {t.tid}: cancelled before its first step, {len(t.cc)} cancel callbacks"))
                 if len(t.cc) > len(t.cdone) or len(t.ec) > len(t.edone):
                     out.append(("callback-not-run-to-completion", qj, f"pool {pi} task {t.tid}"))
         # counter sum
@@ -345,6 +349,7 @@ def mon_C06(st):
                                 f"pool {pi} task {t.tid}: cancel(id) inside its end callback was answered {reg}"))
     named = {}
     other_cancel = set()
+    last_other = {}
     for j, toks in enumerate(st.toks):
         o = st.obs[j]
         if o is None or len(toks) < 3 or toks[0] != "on":
@@ -355,6 +360,7 @@ def mon_C06(st):
         ps = st.pools[pi]
         if toks[2] in ("stop", "stop_all", "cancel_group", "cancel_all"):
             other_cancel.add(pi)
+            last_other[pi] = j
         if toks[2] != "cancel":
             continue
         ids = [int(x) for x in toks[3:] if not x.startswith("@")]
@@ -391,7 +397,15 @@ def mon_C06(st):
                     out.append(("cancelled-before-its-start-yet-started", t.S,
                                 f"pool {pi} task {i}: cancel() succeeded at step {j}, the worker began at step {t.S}"))
     for pi, ps in enumerate(st.pools):
-        if ps.has_hooks or pi in other_cancel:
+        if ps.has_hooks:
+            continue
+        if pi in other_cancel:
+            # a stop / group cancellation can only have hit tasks that existed when it was made
+            for t in ps.tasks.values():
+                if (qj is not None and t.S is None and last_other[pi] < t.first_seen < qj
+                        and t.tid not in named.get(pi, set())):
+                    out.append(("cancelled-a-task-not-named", qj,
+                                f"pool {pi} task {t.tid} (its worker never began, created after the last stop / group cancel)"))
             continue
         for t in ps.tasks.values():
             if t.X is not None and t.tid not in named.get(pi, set()):
@@ -399,6 +413,10 @@ def mon_C06(st):
             elif t.cc and t.tid not in named.get(pi, set()):
                 # the cancel callback only runs for a task that was cancelled (also one cancelled before its first step)
                 out.append(("cancelled-a-task-not-named", t.cc[0][0], f"pool {pi} task {t.tid} (cancel callback ran)"))
+            elif qj is not None and t.S is None and t.first_seen < qj and t.tid not in named.get(pi, set()):
+                # the loop is idle, so every task has had its first step: one whose worker never began was cancelled
+                # before its start - by nobody in this pool
+                out.append(("cancelled-a-task-not-named", qj, f"pool {pi} task {t.tid} (its worker never began)"))
     return out
 
 
@@ -576,6 +594,12 @@ def mon_C09(st):
                 jc, outcome = api_completion(st, pi, a)
                 if jc is not None and outcome == "ok":
                     gac_done[pi] = min(gac_done.get(pi, jc), jc)
+    # only a gather_and_close() that returned normally closes the pool
+    for j, o in obs_steps(st):
+        for pi, po in enumerate(o["pools"]):
+            if po["z"] and not (pi in gac_done and gac_done[pi] <= j):
+                out.append(("closed-though-no-gather-and-close-returned", j, f"pool {pi}"))
+                break
     # an explicit group name that is still in use is refused, whatever the name (hook-free pools)
     for pi, ps in enumerate(st.pools):
         if ps.has_hooks:
